@@ -507,6 +507,12 @@ void execute_assignment(StatementExecutor *executor, Interpreter &interpreter,
                                   << "] = " << node->right->name << std::endl;
                     }
 
+                    // 右辺の struct_members を個別変数（ネストしたメンバー
+                    // "t.in.a" など）の最新値に合わせてからコピーする
+                    interpreter.sync_struct_members_from_direct_access(
+                        node->right->name);
+                    right_var = interpreter.find_variable(node->right->name);
+
                     interpreter.assign_struct_to_array_element(array_name, idx,
                                                                *right_var);
 
@@ -571,6 +577,11 @@ void execute_assignment(StatementExecutor *executor, Interpreter &interpreter,
                                   << array_name << "[" << idx
                                   << "] = " << right_element_name << std::endl;
                     }
+
+                    // 右辺要素の struct_members を個別変数の最新値に合わせる
+                    interpreter.sync_struct_members_from_direct_access(
+                        right_element_name);
+                    right_var = interpreter.find_variable(right_element_name);
 
                     interpreter.assign_struct_to_array_element(array_name, idx,
                                                                *right_var);
